@@ -58,11 +58,7 @@ def _apps(e, names, out, seen):
             _apps(ch, names, out, seen)
 
 
-def _ground(e):
-    return not z3.z3util.get_vars(e) if False else _is_ground(e)
-
-
-def _is_ground(e, cache={}):
+def _is_ground(e, cache):
     k = e.get_id()
     if k in cache:
         return cache[k]
@@ -73,7 +69,7 @@ def _is_ground(e, cache={}):
         r = False
     else:
         for ch in e.children():
-            if not _is_ground(ch):
+            if not _is_ground(ch, cache):
                 r = False
                 break
     cache[k] = r
@@ -89,8 +85,9 @@ def ground_axioms(formulas):
         _apps(f, {'int2dec', 'dec_add', 'dec_mul', 'dec_lt'}, apps, seen)
     out = []
     ints = []
+    gcache = {}
     for a in apps:
-        if not _is_ground(a):
+        if not _is_ground(a, gcache):
             continue
         n = a.decl().name()
         if n == 'int2dec':
